@@ -155,6 +155,17 @@ theorem WFpos_advance {queue : List Packet} {ip k id' : Nat} (hip : ip ≤ queue
   · simp at hk; omega
   · simpa [List.drop_drop] using h
 
+theorem flat_length (ps : List Packet) : (flat ps).length = (ps.map (·.data.length)).sum := by
+  induction ps with
+  | nil => rfl
+  | cons p ps ih => simp [ih]
+
+/-- on a well-formed queue the count `Bytes` compares with is the number of unread bytes -/
+theorem unreadCount_eq (q : PQ) (hwf : q.WF) : q.unreadCount = (q.unread.length : Int) := by
+  have hle := WFrest_drop_length_le hwf
+  simp only [unreadCount, unread, List.length_drop, ← flat_length]
+  omega
+
 /-- `Bytes(n)` with enough bytes available: exactly the next `n` unread bytes, the unread bytes
 shrink by `n`, the queue contents are untouched, the position stays well-formed. -/
 theorem bytes_refines (q : PQ) (n : Nat) (hwf : q.WF) (hn : n ≤ q.unread.length) :
@@ -165,6 +176,8 @@ theorem bytes_refines (q : PQ) (n : Nat) (hwf : q.WF) (hn : n ≤ q.unread.lengt
   · subst h0; exact ⟨q, by simp, by simp, rfl, rfl, hwf⟩
   · have h0' : (n == 0) = false := by simpa using h0
     simp only [h0', Bool.false_eq_true, if_false]
+    have hguard : ¬ ((n : Int) > q.unreadCount) := by rw [unreadCount_eq q hwf]; omega
+    rw [if_neg hguard]
     have hlen : q.id + n ≤ (flat (q.queue.drop q.ip)).length := by
       have : q.unread.length = (flat (q.queue.drop q.ip)).length - q.id := by simp [unread]
       have := WFrest_drop_length_le hwf
@@ -177,22 +190,20 @@ theorem bytes_refines (q : PQ) (n : Nat) (hwf : q.WF) (hn : n ≤ q.unread.lengt
       rw [← List.drop_drop]; exact hrem
     · simp only [Nat.zero_add]; exact WFpos_advance hwf.1 hk hwfk
 
-/-- `Bytes(n)` beyond the available bytes: not-enough-bytes (never a value, never a panic);
-the queue contents are untouched, so restoring a saved position restores every unread byte. -/
+/-- `Bytes(n)` beyond the available bytes: not-enough-bytes (never a value, never a panic),
+nothing is allocated; the queue contents are untouched, so restoring a saved position restores
+every unread byte. -/
 theorem bytes_short (q : PQ) (n : Nat) (hwf : q.WF) (hn : q.unread.length < n) :
     ∃ bs q', q.bytes n = (.short bs, q') ∧ q'.queue = q.queue ∧ q'.eom = q.eom
       ∧ q'.unread = [] ∧ q'.WF := by
   unfold bytes
   have h0' : (n == 0) = false := by simp; omega
   simp only [h0', Bool.false_eq_true, if_false]
-  have hlen : (flat (q.queue.drop q.ip)).length < q.id + n := by
-    have : q.unread.length = (flat (q.queue.drop q.ip)).length - q.id := by simp [unread]
-    omega
-  obtain ⟨bs, k, id', hrl, hk, hwfk, hrem⟩ := readLoop_short (q.queue.drop q.ip) q.id n [] 0 hwf.2 hlen
-  rw [hrl]
-  refine ⟨padTo n bs, { q with ip := q.ip + (0 + k), id := id' }, rfl, rfl, rfl, ?_, ?_⟩
-  · simp only [unread, Nat.zero_add]; rw [← List.drop_drop]; exact hrem
-  · simp only [Nat.zero_add]; exact WFpos_advance hwf.1 hk hwfk
+  have hguard : (n : Int) > q.unreadCount := by rw [unreadCount_eq q hwf]; omega
+  rw [if_pos hguard]
+  refine ⟨[], _, rfl, rfl, rfl, ?_, ?_⟩
+  · simp [unread, flat]
+  · simp [WF, WFpos, WFrest]
 
 /-- no read of any size panics on a well-formed queue -/
 theorem bytes_no_panic (q : PQ) (n : Nat) (hwf : q.WF) : (q.bytes n).1 ≠ .panic := by
